@@ -46,6 +46,12 @@ def gen(rng, tier):
     from e1_threads.harness import gen_sched
     c = HC.gen_tables(rng, tier, max_h=200, max_p=400) if (tier == 'thorough' and rng.random() < 0.3) else HC.gen_tables(rng, tier)
     c['Nthread'] = rng.choice([1, 2, 3, 4, 8, 16])
+    if c['origin'] is not None:
+        # a galaxy exactly on the observer has no line of sight (0/0 -> NaN positions, in the package and in the model):
+        # outside what C09 states; kept for C10, whose bitwise comparison between thread counts is indifferent to it
+        for obj in c['halos'] + c['parts']:
+            if obj['pos'] == c['origin']:
+                obj['pos'] = [obj['pos'][0] + 1.0, obj['pos'][1], obj['pos'][2]]
     c['sched'] = gen_sched(rng)
     c['ic_scale'] = rng.choice([0.3, 0.5, 0.9])
     # a history: the same tracer dictionaries are re-used for a second call after in-place parameter
